@@ -400,7 +400,8 @@ impl<'a> Recorder<'a> {
                     continue;
                 }
                 self.seen_target.insert(key);
-                let shrunk = if !allow_shrink || self.opts.no_shrink || cfg!(miri) {
+                // shrinking replays the history once per removed event: only worth it for short ones
+                let shrunk = if !allow_shrink || self.opts.no_shrink || cfg!(miri) || trace.len() > 3000 {
                     trace.to_vec()
                 } else {
                     shrink::<D>(cfg, k, bounded, trace, f)
